@@ -93,23 +93,29 @@ def reverse_iter_lines(file_obj, blocksize=DEFAULT_BLOCKSIZE, preseek=True, enco
         file_obj.seek(0, os.SEEK_END)
     buff = empty_bytes
     cur_pos = file_obj.tell()
+    if not cur_pos:
+        return
+    # every piece but the one after the last newline is followed by a
+    # newline, so a trailing carriage return is part of its line break
+    at_end = True
     while 0 < cur_pos:
         read_size = min(blocksize, cur_pos)
         cur_pos -= read_size
         file_obj.seek(cur_pos, os.SEEK_SET)
         cur = file_obj.read(read_size)
         buff = cur + buff
-        lines = buff.splitlines()
-
-        if len(lines) < 2 or lines[0] == empty_bytes:
-            continue
-        if buff[-1:] == newline_bytes:
-            yield empty_text if encoding else empty_bytes
+        lines = buff.split(newline_bytes)
+        # all pieces after the first newline are complete lines; the
+        # first one may continue to the left
         for line in lines[:0:-1]:
+            if not at_end and line[-1:] == b'\r':
+                line = line[:-1]
+            at_end = False
             yield line.decode(encoding) if encoding else line
         buff = lines[0]
-    if buff:
-        yield buff.decode(encoding) if encoding else buff
+    if not at_end and buff[-1:] == b'\r':
+        buff = buff[:-1]
+    yield buff.decode(encoding) if encoding else buff
 
 
 
